@@ -443,7 +443,10 @@ def repair(stdout, stderr, parser: ArgumentParser, args: Namespace):
         structural_predicates=structural_predicates,
         semantic_predicates=semantic_predicates,
     )
-    maybe_repaired = solver.repair(inp, fix_timeout_seconds=args.timeout)
+    try:
+        maybe_repaired = solver.repair(inp, fix_timeout_seconds=args.timeout)
+    except Exception as exc:
+        exit_constraint_not_evaluable(command, exc, stderr)
 
     if not is_successful(maybe_repaired):
         print(
@@ -497,12 +500,15 @@ def mutate(stdout, stderr, parser: ArgumentParser, args: Namespace):
         semantic_predicates=semantic_predicates,
     )
 
-    mutated = solver.mutate(
-        inp,
-        fix_timeout_seconds=args.timeout,
-        min_mutations=args.min_mutations,
-        max_mutations=args.max_mutations,
-    )
+    try:
+        mutated = solver.mutate(
+            inp,
+            fix_timeout_seconds=args.timeout,
+            min_mutations=args.min_mutations,
+            max_mutations=args.max_mutations,
+        )
+    except Exception as exc:
+        exit_constraint_not_evaluable(command, exc, stderr)
 
     if args.output_file:
         with open(args.output_file, "w") as file:
@@ -557,8 +563,26 @@ def do_check(
             raise SemanticError()
     except SemanticError:
         return 1, "input does not satisfy the ISLa constraint", Nothing
+    except Exception as exc:
+        exit_constraint_not_evaluable(command, exc, stderr)
 
     return 0, "input satisfies the ISLa constraint", Some(tree)
+
+
+def exit_constraint_not_evaluable(command: str, exc: Exception, stderr):
+    # Predicates check the types of their arguments only when they are evaluated
+    # (e.g., `nth("x", elem, start)`, `level("XX", ...)`, a string where a tree is
+    # expected). Such a constraint is reported like one that cannot be parsed.
+    exc_string = str(exc)
+    print(
+        f"isla {command}: error: A {type(exc).__name__} occurred while evaluating "
+        + "the constraint; check the types of the predicate arguments"
+        + (f" ({exc_string})" if exc_string and exc_string != "None" else ""),
+        file=stderr,
+    )
+    sys.exit(DATA_FORMAT_ERROR)
+
+
 
 
 def create(stdout, stderr, parser: ArgumentParser, args: Namespace):
